@@ -1413,7 +1413,7 @@ struct array : static_array<T, D, Alloc> {
 	auto assign(It first, It last) -> array& {
 		using std::all_of;
 		using std::next;
-		if(adl_distance(first, last) == this->size()) {
+		if(adl_distance(first, last) == this->size() && (first == last || multi::extensions(*first) == multi::extensions(*this->begin()))) {
 			static_::ref::assign(first);
 		} else {
 			this->operator=(array(first, last));
